@@ -310,7 +310,11 @@ func (w *World) park(ctx context.Context, op, note string, cond func() bool, loc
 		if w.parked[key] == p {
 			delete(w.parked, key)
 		}
-		w.selfWoken = append(w.selfWoken, key+"@"+op)
+		if op != "body.Read" {
+			// (a body reader that outlives its request just goes away: whether it had parked yet
+			// depends on goroutine start-up timing, so it leaves no trace in the event log)
+			w.selfWoken = append(w.selfWoken, key+"@"+op)
+		}
 		w.mu.Unlock()
 		return &Fault{Kind: FCancelled}
 	}
